@@ -294,6 +294,11 @@ fn arrays_extra() -> Vec<V> {
         V::Arr(vec![V::map(&[("b", V::I64(1))])]),
         V::Arr(vec![V::F64(1.0)]),
         V::Arr(vec![s("é"), s("")]),
+        // incomparable elements that are never neighbours (seeded change C17-5: comparability was
+        // only tested between adjacent input elements)
+        V::Arr(vec![V::I64(1), V::None, s("a")]),
+        V::Arr(vec![s("a"), V::I64(1), s("b"), V::I64(2)]),
+        V::Arr(vec![V::Arr(vec![V::I64(2), s("a")]), V::Arr(vec![V::I64(1)]), V::Arr(vec![V::I64(2), V::I64(1)])]),
     ]
 }
 
